@@ -186,6 +186,16 @@ pub fn run(ctx: &Ctx, rep: &mut Report) {
             if !alive {
                 break;
             }
+            if rng.chance(1, 3) {
+                let d = rng.ledger_jump();
+                if w.u.advance(d) {
+                    rep.count("advance-ledger");
+                    if let Some(dd) = w.check_registry() {
+                        rep.violation("registry-or-trust-changed-by-passing-time", dd);
+                        break;
+                    }
+                }
+            }
             // trusted-chain history: avalanche's trust flips between rounds
             if rng.chance(1, 2) {
                 let now = w.model.trusted.contains(&b"avalanche".to_vec());
